@@ -576,8 +576,9 @@ class LoopMixin:
         if not isinstance(recv.t, TList):
             return None
         lv = f.value
-        if isinstance(lv, ast.Subscript) and f.attr == "append" and len(e.args) == 1:
-            # obj[key].append(x) on an object whose item is a list attribute: the class's assumed `__item_append__(key, x)`
+        if isinstance(lv, ast.Subscript) and f.attr in ("append", "extend") and len(e.args) == 1:
+            # obj[key].append(x) / .extend(xs) on an object whose item is a list attribute: the class's assumed
+            # `__item_append__(key, x)` / `__item_extend__(key, xs)`
             out = []
             for s2, vals in self.ev_list([lv.value, lv.slice, e.args[0]], st):
                 if isinstance(vals, Raised):
@@ -586,7 +587,7 @@ class LoopMixin:
                 base = vals[0]
                 if not isinstance(base.t, TRef):
                     raise EngineError(f"list mutation on a temporary: {ast.unparse(e)}")
-                for s3, m in self.getattr(base, "__item_append__", s2, e):
+                for s3, m in self.getattr(base, f"__item_{f.attr}__", s2, e):
                     out.extend(self.apply(m, [vals[1], vals[2]], {}, s3, e))
             return out
         if not isinstance(lv, (ast.Name, ast.Attribute)):
